@@ -33,3 +33,16 @@ pub proof fn lemma_square_split(a: Seq<u64>, n: nat, i: nat)
     }
 }
 
+
+/// limbs k..n all zero: the value is that of the low k limbs
+pub proof fn lemma_val_high_zero_c01(s: Seq<u64>, k: nat, n: nat)
+    requires k <= n, forall|j: int| k <= j < n ==> s[j] == 0
+    ensures val(s, n) == val(s, k)
+    decreases n
+{
+    if n > k {
+        lemma_val_high_zero_c01(s, k, (n - 1) as nat);
+        assert(0 * bpow((n - 1) as nat) == 0) by(nonlinear_arith);
+    }
+}
+
